@@ -4,7 +4,7 @@
 From Coq Require Import List Arith ZArith Reals.
 From OV.base Require Import Num.
 From OV.model Require Import M_C13_Struct M_C13_Edges M_C13_Combine M_C13_Read M_C13_Elevate.
-From OV.proofs Require Import L_C13_Struct L_C13_Edges L_C13_Combine L_C13_Read L_C13_Top L_C13_Elevate.
+From OV.proofs Require Import L_C13_Struct L_C13_Edges L_C13_Combine L_C13_Read L_C13_Top L_C13_Elevate L_C13_Elev2.
 Import ListNotations.
 
 (* ---- structured generator: in-range connectivity using every node, counter-clockwise elements of positive area,
@@ -48,7 +48,7 @@ Theorem C13_edges_unique_holder : forall conns t p t' p' f,
   NoDup (all_faces conns) -> holds conns t p f -> holds conns t' p' f -> t = t' /\ p = p'.
 Proof. exact holder_unique. Qed.
 
-(* ---- merging: offsets, ranges, nothing lost when names are distinct *)
+(* ---- merging: offsets, ranges, nothing lost *)
 Theorem C13_combine_offsets : forall (m1 m2 : cmesh R),
   let m := combine_mesh m1 m2 in
   let n1 := length (cm_coords m1) in let n2 := length (cm_coords m2) in
@@ -64,35 +64,45 @@ Proof.
   intros m1 m2. cbv zeta. split; [apply combine_counts |]. split; [reflexivity |]. split; [apply combine_in_range |].
   split; [apply combine_every_node_used |]. split; [apply combine_area_first | apply combine_area_second].
 Qed.
-Theorem C13_combine_sets_distinct_names : forall (m1 m2 : cmesh R),
+(* NO member is lost, for ANY names (distinct or equal; repaired code 157ff14 concatenates on equal names): every element
+   of a first-mesh block and every shifted element of a second-mesh block is found under its name, the member count adds
+   up, members stay in range.  [NoDup] is the dict invariant of the FIRST mesh's own dict (keys of one dict are unique). *)
+Theorem C13_combine_blocks_no_loss : forall (m1 m2 : cmesh R), NoDup (map fst (cm_blocks m1)) ->
+  (forall k v, In (k, v) (cm_blocks m1) -> exists v', dget (cm_blocks (combine_mesh m1 m2)) k = Some v' /\ forall e, In e v -> In e v')
+  /\ (forall k v, In (k, v) (cm_blocks m2) ->
+        exists v', dget (cm_blocks (combine_mesh m1 m2)) k = Some v' /\ forall e, In e v -> In (length (cm_conns m1) + e) v')
+  /\ members (cm_blocks (combine_mesh m1 m2)) = members (cm_blocks m1) + members (cm_blocks m2).
+Proof. exact combine_blocks_no_loss. Qed.
+Theorem C13_combine_blocks_in_range : forall (m1 m2 : cmesh R), NoDup (map fst (cm_blocks m1)) ->
+  Forall (fun kv => Forall (fun e => e < length (cm_conns m1)) (snd kv)) (cm_blocks m1) ->
+  Forall (fun kv => Forall (fun e => e < length (cm_conns m2)) (snd kv)) (cm_blocks m2) ->
+  Forall (fun kv => Forall (fun e => e < length (cm_conns (combine_mesh m1 m2))) (snd kv)) (cm_blocks (combine_mesh m1 m2)).
+Proof. exact combine_blocks_in_range. Qed.
+Theorem C13_combine_nodesets_no_loss : forall (m1 m2 : cmesh R) d1 d2,
+  cm_nodesets m1 = Some d1 -> cm_nodesets m2 = Some d2 -> NoDup (map fst d1) ->
+  exists d, cm_nodesets (combine_mesh m1 m2) = Some d
+  /\ (forall k v, In (k, v) d1 -> exists v', dget d k = Some v' /\ forall x, In x v -> In x v')
+  /\ (forall k v, In (k, v) d2 -> exists v', dget d k = Some v' /\ forall x, In x v -> In (length (cm_coords m1) + x) v')
+  /\ members d = members d1 + members d2.
+Proof. exact combine_nodesets_no_loss. Qed.
+Theorem C13_combine_sidesets_no_loss : forall (m1 m2 : cmesh R) d1 d2,
+  cm_sidesets m1 = Some d1 -> cm_sidesets m2 = Some d2 -> NoDup (map fst d1) ->
+  exists d, cm_sidesets (combine_mesh m1 m2) = Some d
+  /\ (forall k v, In (k, v) d1 -> exists v', dget d k = Some v' /\ forall x, In x v -> In x v')
+  /\ (forall k v, In (k, v) d2 -> exists v', dget d k = Some v' /\ forall es, In es v -> In (length (cm_conns m1) + fst es, snd es) v')
+  /\ members d = members d1 + members d2.
+Proof. exact combine_sidesets_no_loss. Qed.
+(* with pairwise distinct names, the exact shape: first mesh's blocks followed by the shifted second mesh's blocks *)
+Theorem C13_combine_blocks_distinct_names : forall (m1 m2 : cmesh R),
   NoDup (map fst (cm_blocks m1) ++ map fst (cm_blocks m2)) ->
   cm_blocks (combine_mesh m1 m2)
-  = cm_blocks m1 ++ map (fun kv => (fst kv, map (Nat.add (length (cm_conns m1))) (snd kv))) (cm_blocks m2)
-  /\ members (cm_blocks (combine_mesh m1 m2)) = members (cm_blocks m1) + members (cm_blocks m2)
-  /\ (Forall (fun kv => Forall (fun e => e < length (cm_conns m1)) (snd kv)) (cm_blocks m1) ->
-      Forall (fun kv => Forall (fun e => e < length (cm_conns m2)) (snd kv)) (cm_blocks m2) ->
-      Forall (fun kv => Forall (fun e => e < length (cm_conns (combine_mesh m1 m2))) (snd kv)) (cm_blocks (combine_mesh m1 m2))).
-Proof.
-  intros m1 m2 H. split; [now apply combine_blocks_form |]. split; [now apply combine_blocks_members |].
-  now apply combine_blocks_in_range.
-Qed.
-Theorem C13_combine_nodesets_distinct_names : forall (m1 m2 : cmesh R) d1 d2,
-  cm_nodesets m1 = Some d1 -> cm_nodesets m2 = Some d2 -> NoDup (map fst d1 ++ map fst d2) ->
-  cm_nodesets (combine_mesh m1 m2) = Some (d1 ++ map (fun kv => (fst kv, map (Nat.add (length (cm_coords m1))) (snd kv))) d2).
-Proof. exact combine_nodesets_form. Qed.
-Theorem C13_combine_sidesets_distinct_names : forall (m1 m2 : cmesh R) d1 d2,
-  cm_sidesets m1 = Some d1 -> cm_sidesets m2 = Some d2 -> NoDup (map fst d1 ++ map fst d2) ->
-  cm_sidesets (combine_mesh m1 m2)
-  = Some (d1 ++ map (fun kv => (fst kv, map (fun es => (length (cm_conns m1) + fst es, snd es)) (snd kv))) d2).
-Proof. exact combine_sidesets_form. Qed.
-(* NOT PROVED (false of the faithful model): "merging loses no element, node-set member or side-set member" for EVERY pair
-   of meshes including equal set names.  With equal names the later entry overwrites the earlier (known finding F8): *)
-Theorem C13_combine_name_clash_refuted :
+  = cm_blocks m1 ++ map (fun kv => (fst kv, map (Nat.add (length (cm_conns m1))) (snd kv))) (cm_blocks m2).
+Proof. exact combine_blocks_form. Qed.
+(* regression (known finding F8, fixed): two structured 3x3 meshes, both with block_0 *)
+Theorem C13_combine_name_clash_regression :
   let m := combine_mesh (smesh 3 3) (smesh 3 3) in
-  length (cm_conns m) = 16 /\ cm_blocks m = [(0%Z, [8; 9; 10; 11; 12; 13; 14; 15])]
-  /\ members (cm_blocks m) = 8 /\ members (cm_blocks (smesh 3 3)) + members (cm_blocks (smesh 3 3)) = 16
-  /\ ~ (forall e, e < 16 -> exists kv, In kv (cm_blocks m) /\ In e (snd kv)).
-Proof. exact combine_name_clash_witness. Qed.
+  length (cm_conns m) = 16 /\ cm_blocks m = [(0%Z, seq 0 16)] /\ members (cm_blocks m) = 16.
+Proof. exact combine_name_clash_regression. Qed.
 
 (* ---- readers: 1-based -> 0-based stays in range and one-to-one, blocks are consecutive ranges covering all elements,
         6-node rows are permuted so that native vertices / faces see (vertex, mid-side, vertex) *)
@@ -123,10 +133,58 @@ Theorem C13_elevate_numbering_partial : forall nV nE nT m nI,
 Proof.
   intros. split; [apply all_ids_seq |]. split; [apply all_ids_nodup |]. split; [apply all_ids_nodup | intros; apply edge_ids_right_rev].
 Qed.
-(* NOT PROVED: the rest of C13_elevate -- that create_higher_order_mesh_from_simplex_mesh writes every slot into the
-   connectivity at the reference element's vertex/face/interior positions (so that the connectivity is onto and neighbours
-   share edge nodes in matching order) and that node coordinates are the affine images of the reference nodes (needs the
-   Lobatto symmetry certificate).  These are only evaluated on the implementation's elevated meshes (tests, not proof). *)
+(* ---- order elevation, connectivity.  [events] is the log of the functional array writes of
+        create_higher_order_mesh_from_simplex_mesh, [lookup] returns the last value written to an entry, [elevated] is the
+        resulting table (compared with the implementation on every run).  [pe_good] is the reference-element certificate
+        (vertex / face-interior / interior position tables partition 0..n-1), established by the checker [pe_okb], which is
+        evaluated on the implementation's tables for every order 1..5 with and without bubble on every run.
+        Hypothesis on the mesh: no element side has equal end points. *)
+Theorem C13_pe_certificate_sound : forall pe m, pe_okb pe m = true -> pe_good pe m.
+Proof. exact pe_okb_good. Qed.
+(* no write is overwritten: all targets of the write log are pairwise distinct *)
+Theorem C13_elevate_writes_survive : forall conns pe nV m, pe_good pe m ->
+  (forall f, In f (all_faces conns) -> fst f <> snd f) ->
+  NoDup (map fst (events pe nV m conns))
+  /\ forall k v, In (k, v) (events pe nV m conns) -> lookup (events pe nV m conns) k = Some v.
+Proof. intros conns pe nV m H1 H2. split; [now apply targets_nodup | now apply write_survives]. Qed.
+(* vertex ids at the vertex positions; interior ids at the interior positions *)
+Theorem C13_elevate_vertex_interior : forall conns pe nV m, pe_good pe m ->
+  (forall f, In f (all_faces conns) -> fst f <> snd f) ->
+  (forall t c i p v, nth_error conns t = Some c -> nth_error (pe_vertex pe) i = Some p -> nth_error c i = Some v ->
+     lookup (events pe nV m conns) (t, p) = Some v)
+  /\ (forall t k p, t < length conns -> nth_error (pe_interior pe) k = Some p ->
+     lookup (events pe nV m conns) (t, p)
+     = Some (nV + length (create_edges conns) * m + t * length (pe_interior pe) + k)).
+Proof. intros conns pe nV m H1 H2. split; [exact (elev_vertex conns pe nV m H1 H2) | exact (elev_interior conns pe nV m H1 H2)]. Qed.
+(* conformity: for edge row e the left element carries the ids nV+e*m+k at the interior positions of its recorded face in
+   order, the right element (if any) carries the same ids in reversed order at the interior positions of its face *)
+Theorem C13_elevate_conform : forall conns pe nV m, pe_good pe m ->
+  (forall f, In f (all_faces conns) -> fst f <> snd f) ->
+  forall e r sl i p v, nth_error (create_edges conns) e = Some r -> In sl (slots_of r) ->
+    nth_error (pe_mid pe (snd (fst sl))) i = Some p ->
+    nth_error (if snd sl then edge_ids nV m e else rev (edge_ids nV m e)) i = Some v ->
+    lookup (events pe nV m conns) (fst (fst sl), p) = Some v.
+Proof. intros conns pe nV m H1 H2. exact (elev_edge conns pe nV m H1 H2). Qed.
+(* no unused node, and everything stored is in range *)
+Theorem C13_elevate_onto_in_range : forall conns pe nV m, pe_good pe m ->
+  (forall f, In f (all_faces conns) -> fst f <> snd f) ->
+  let N := nV + length (create_edges conns) * m + length conns * length (pe_interior pe) in
+  (Forall (fun c => length c = 3) conns -> (forall n, n < nV -> exists c, In c conns /\ In n c) ->
+     forall id, id < N -> exists k, lookup (events pe nV m conns) k = Some id)
+  /\ (Forall (Forall (fun i => i < nV)) conns -> forall k v, lookup (events pe nV m conns) k = Some v -> v < N).
+Proof. intros conns pe nV m H1 H2. cbv zeta. split; [exact (elev_onto conns pe nV m H1 H2) | exact (elev_in_range conns pe nV m)]. Qed.
+Theorem C13_elevated_entry : forall conns pe nV m t pos, t < length conns -> pos < pe_n pe ->
+  nth pos (nth t (elevated pe nV m conns) []) 0
+  = match lookup (events pe nV m conns) (t, pos) with Some v => v | None => 0 end.
+Proof. exact elevated_entry. Qed.
+(* coordinates of the shared edge nodes agree between neighbours up to delta |A-B| when the 1-D nodes are symmetric up to
+   delta (certificate lobatto_sym_cert, evaluated on the implementation's Lobatto nodes for orders 1..5) *)
+Theorem C13_elevate_edge_point_conform : forall a b s s' delta : R, (Rabs (s + s' - 1) <= delta)%R ->
+  (Rabs (((1 - s') * a + s' * b) - ((1 - s) * b + s * a)) <= delta * Rabs (a - b))%R.
+Proof. exact edge_point_conform. Qed.
+(* NOT PROVED: that the node COORDINATES written by create_higher_order_mesh_from_simplex_mesh are the affine images of
+   the reference nodes for every element (needs a model of the coordinate arrays and the certificate that reference
+   face nodes lie at the 1-D Lobatto parameters); evaluated on the implementation's elevated meshes (tests). *)
 
 Example C13_nonvacuous : exists (xs ys : nat -> R),
   (forall i, S i < 3 -> (xs i < xs (S i))%R) /\ (forall j, S j < 4 -> (ys j < ys (S j))%R)
@@ -137,5 +195,8 @@ Print Assumptions C13_structured_valid.
 Print Assumptions C13_edges_once.
 Print Assumptions C13_edges_adjacency.
 Print Assumptions C13_combine_offsets.
-Print Assumptions C13_combine_name_clash_refuted.
+Print Assumptions C13_combine_blocks_no_loss.
+Print Assumptions C13_combine_sidesets_no_loss.
 Print Assumptions C13_reader_indices.
+Print Assumptions C13_elevate_writes_survive.
+Print Assumptions C13_elevate_conform.
